@@ -211,6 +211,12 @@ func corpusFiles() []*descriptorpb.FileDescriptorProto {
 		s.repeated("u_"+k.name, next(), k.t, "", &f)
 	}
 	s.repeated("u_enum", next(), tEnum, ".corpus.scalars.Color", &f)
+	// an enum with aliases (several names for one number, a negative number): the first declared name is the canonical one
+	sc.EnumType = append(sc.EnumType, &descriptorpb.EnumDescriptorProto{Name: proto.String("Level"), Options: &descriptorpb.EnumOptions{AllowAlias: proto.Bool(true)},
+		Value: []*descriptorpb.EnumValueDescriptorProto{
+			{Name: proto.String("LEVEL_UNSPECIFIED"), Number: proto.Int32(0)}, {Name: proto.String("LEVEL_LOW"), Number: proto.Int32(1)}, {Name: proto.String("LEVEL_MIN"), Number: proto.Int32(1)},
+			{Name: proto.String("LEVEL_HIGH"), Number: proto.Int32(2)}, {Name: proto.String("LEVEL_MAX"), Number: proto.Int32(2)}, {Name: proto.String("LEVEL_NEG"), Number: proto.Int32(-3)}}})
+	s.field("s_level", next(), tEnum, ".corpus.scalars.Level")
 	sc.MessageType = append(sc.MessageType, s.m)
 	files = append(files, sc)
 
@@ -349,6 +355,13 @@ func corpusFiles() []*descriptorpb.FileDescriptorProto {
 	deep := newMsg("Deep", "corpus.nest.Space.Filter.Deep")
 	deep.mapField("tags", 1, descriptorpb.FieldDescriptorProto_TYPE_STRING, descriptorpb.FieldDescriptorProto_TYPE_INT64, "")
 	deep.field("coin", 2, tMsg, ".corpus.nest.Space.Coin")
+	// a nested message declared after a map field: nested_type is [TagsEntry, Leaf] (protoc keeps source order, so
+	// synthetic map entries are interleaved with declared messages)
+	leaf := newMsg("Leaf", "corpus.nest.Space.Filter.Deep.Leaf")
+	leaf.field("weight", 1, descriptorpb.FieldDescriptorProto_TYPE_SINT32, "")
+	deep.m.NestedType = append(deep.m.NestedType, leaf.m)
+	deep.field("leaf", 3, tMsg, ".corpus.nest.Space.Filter.Deep.Leaf")
+	deep.mapField("leaves", 4, descriptorpb.FieldDescriptorProto_TYPE_INT32, tMsg, ".corpus.nest.Space.Filter.Deep.Leaf")
 	filter.m.NestedType = append(filter.m.NestedType, deep.m)
 	filter.field("deep", 3, tMsg, ".corpus.nest.Space.Filter.Deep")
 	space.m.NestedType = append(space.m.NestedType, filter.m, coin.m)
